@@ -34,6 +34,7 @@ func main() {
 	config := flag.String("config", "", "restrict to one build config")
 	census := flag.String("census", "", "debug: comma-separated fields to print writers of")
 	dumpReg := flag.Bool("registry", false, "debug: print the extracted registry")
+	dumpCFG := flag.String("cfg", "", "debug: print the CFG of a function")
 	flag.Parse()
 	debug.SetGCPercent(200)
 
@@ -41,6 +42,15 @@ func main() {
 		for _, id := range sortedKeys(ruleRegistry) {
 			fmt.Printf("%-28s floor=%-3d %s\n", id, ruleRegistry[id].Floor, ruleRegistry[id].Doc)
 		}
+		return
+	}
+	if *dumpCFG != "" {
+		c, err := Load(*repo, buildConfigs["default"])
+		if err != nil {
+			fmt.Println(err)
+			os.Exit(1)
+		}
+		debugCFG(c, *dumpCFG)
 		return
 	}
 	if *dumpReg {
